@@ -252,7 +252,15 @@ impl C14 {
                         return Some(fail("F2-roundtrip", item, env, format!("came back as {:e} (bits {:#018x}), expected bits {:#018x}", x, x.to_bits(), want64)));
                     }
                 }
-                (Some(x), Some(y)) => return Some(fail("F4-forms-agree", item, env, format!("value form gives {:e}, reference form {:e}", x, y))),
+                (Some(x), Some(y)) if calls.is_empty() => return Some(fail("F4-forms-agree", item, env, format!("value form gives {:e}, reference form {:e}", x, y))),
+                (Some(x), Some(y)) => {
+                    // the seam is on this path and varied between the two calls: each must still be the float
+                    for z in [x, y] {
+                        if z.to_bits() != want64 {
+                            return Some(fail("F2-roundtrip", item, env, format!("came back as {:e} (bits {:#018x}), expected bits {:#018x}", z, z.to_bits(), want64)));
+                        }
+                    }
+                }
                 _ => return Some(fail("F2-roundtrip", item, env, "to_f64 returned None".into())),
             }
             if is32 {
@@ -290,9 +298,27 @@ impl C14 {
         };
         let g = match (a, b) {
             (Some(x), Some(y)) if x.to_bits() == y.to_bits() => x,
-            (Some(x), Some(y)) => return (Some(fail("F4-forms-agree", item, env, format!("value form gives {:e}, reference form {:e}", x, y))), ncalls),
+            // Two calls may legitimately see two different powi results (Rust: the precision "can even
+            // differ within the same execution from one invocation to the next" - Miri does exactly that),
+            // so the two forms need only agree bit for bit when the seam is not on the path.
+            (Some(x), Some(y)) if ncalls == 0 => return (Some(fail("F4-forms-agree", item, env, format!("value form gives {:e}, reference form {:e}", x, y))), ncalls),
+            (Some(x), Some(y)) => {
+                obs.reach("forms_differ_under_call_to_call_powi_variation");
+                // judge both: the reference form here, the value form below
+                let (f, _) = self.judge_f3(item, value, r, env, y, obs);
+                if f.is_some() {
+                    return (f, ncalls);
+                }
+                x
+            }
             _ => return (Some(fail("F3-some", item, env, "to_f64 returned None".into())), ncalls),
         };
+        self.judge_f3(item, value, r, env, g, obs).0.map_or((None, ncalls), |f| (Some(f), ncalls))
+    }
+
+    /// F3 on one result `g`
+    fn judge_f3(&self, item: &Item, value: &Dec, r: &RefDec, env: &FloatEnv, g: f64, obs: &mut Obs) -> (Option<Failure>, usize) {
+        let ncalls = 0usize;
         obs.digest(&[g.to_bits(), env.code()]);
         if g.is_nan() {
             return (Some(fail("F3-tolerance", item, env, "to_f64 returned NaN".into())), ncalls);
